@@ -340,6 +340,19 @@ func runC20(r *core.Run) {
 		}
 		// luminances far from 1, all four alike and the white alone (the generated matrix scales with
 		// the white's luminance; nothing may be flushed, clamped or taken for singular on the way)
+		// luminances that happen to add up (the primaries' to the white's), in several ways
+		for _, yy4 := range [][4]float32{{0.25, 0.5, 0.25, 1}, {1, 1, 1, 3}, {0.2, 0.3, 0.5, 1}, {2, 3, 5, 10}, {0.5, 0.5, 0, 1}, {1, 1, 1, 1}, {0.3, 0.3, 0.3, 0.9}} {
+			if yy4[2] == 0 {
+				continue // a primary without luminance is degenerate
+			}
+			kind, msg, _ := c20TriangleYY(sp.XY, yy4)
+			r.AddEvals(1)
+			r.NT(fmt.Sprintf("pubyysum/%s/%v", sp.Name, yy4))
+			if kind != "" {
+				y := yy4
+				r.Violate("triangle", kind+"/luminance-sum", sp.Name+": "+msg, c20Case{Kind: kind, XY: sp.XY, YY: &y})
+			}
+		}
 		for _, ysc := range []float32{1e-9, 1e-6, 1e-4, 1e4, 1e9} {
 			for _, yy4 := range [][4]float32{{ysc, ysc, ysc, ysc}, {1, 1, 1, ysc}, {ysc, ysc * 2, ysc / 2, 1}} {
 				kind, msg, _ := c20TriangleYY(sp.XY, yy4)
@@ -506,7 +519,7 @@ func runC20(r *core.Run) {
 		}
 	}
 	// vectors with exact zeros in every position through MulV
-	for _, v := range []matrix.Vector3{{0, 1, 0}, {0.25, 0, 0.75}, {0, 0, 1}, {1, 0, 0}, {0, 0, 0}, {0, 2, 3}} {
+	for _, v := range []matrix.Vector3{{0, 1, 0}, {0.25, 0, 0.75}, {0, 0, 1}, {1, 0, 0}, {0, 0, 0}, {0, 2, 3}, {1, -1, 0}, {0.5, 0.25, -0.75}, {-2, 1, 1}, {1e-9, -1e-9, 0}, {3, -1, -2}} {
 		m := matrix.Matrix3{{1, 2, 3}, {4, 5, 6}, {7, 8, 10}}
 		gv, wv := m.MulV(v), libMat(m).MulV(refcolor.Vec{v[0], v[1], v[2]})
 		r.AddEvals(1)
